@@ -16,6 +16,7 @@ From MV Require Import Doc.RenderProofs.
 From MV Require Import Doc.Skel.
 From MV Require Import Doc.WF.
 From MV Require Import Doc.OpsProofs.
+From MV Require Import Doc.DynProofs.
 From MV Require Import Doc.Post.
 Import ListNotations.
 Open Scope N_scope.
@@ -118,19 +119,26 @@ Lemma tshape_eq t :
              && forallb tshape (children t).
 Proof. destruct t. reflexivity. Qed.
 
-Lemma static_tok_eq t :
-  static_tok t = nodup_keys (attrs t)
+Lemma static_tok_eq B C OR t :
+  static_tok B C OR t = nodup_keys (attrs t)
                  && match kind_of (ty t) with
                     | KLink => link_static t
                     | KTable => table_static (children t)
                     | KFieldList => field_static (children t)
                     | _ => true
                     end
-                 && match kind_of (ty t) with
-                    | KImage => true
-                    | _ => forallb static_tok (children t)
-                    end.
+                 && (dyn_static B C OR t
+                     && match kind_of (ty t) with
+                        | KImage => true
+                        | _ => forallb (static_tok B C OR) (children t)
+                        end).
 Proof. destruct t. reflexivity. Qed.
+
+Lemma dyn_of_static B C OR t : static_tok B C OR t = true -> dyn_static B C OR t = true.
+Proof.
+  intro H. rewrite static_tok_eq in H. apply andb_true_iff in H. destruct H as [_ H].
+  apply andb_true_iff in H. destruct H as [H _]. exact H.
+Qed.
 
 (* the tables regenerated from the source are what the specification expects *)
 Lemma gen_table_align : table_align = spec_align. Proof. reflexivity. Qed.
@@ -148,11 +156,12 @@ Section Main.
   Definition O_lexer_concat : Prop := forall lang text toks,
       o_lex OR lang text = Some toks -> strip1nl (flat_map snd toks) = strip1nl text.
   Definition O_canon : Prop := forall x, D (o_nlt OR x) = D x.
-  Definition O_no_files : Prop := forall p, o_path2doc OR p = None.
+  Definition O_no_files : Prop := forall p, o_path2doc OR p = None /\ o_docjoin OR p = None.
   Definition Hyps : Prop := O_lexer_concat /\ O_canon /\ O_no_files.
 
   Notation bld := (build B C OR).
   Notation sktok := (skel_tok D B C OR).
+  Notation static_tok := (Skel.static_tok B C OR).
 
   Definition skel_ok (sk : list skel) (ns : list node) : Prop :=
     Hyps -> existsb has_dropped ns = false -> skel_nodes D ns = sk.
@@ -294,6 +303,7 @@ Section Main.
                         forallb static_tok (children t) = true.
   Proof.
     intros H Hk. rewrite static_tok_eq in H. apply andb_true_iff in H. destruct H as [_ H].
+    apply andb_true_iff in H. destruct H as [_ H].
     destruct (kind_of (ty t)); try contradiction; exact H.
   Qed.
 
@@ -806,16 +816,78 @@ Section Main.
       eapply post_code_common; eauto.
   Qed.
 
+  Lemma run_append_all ms : forall k ctag f ns f',
+    run_f (append_all ms k) ctag f = Some (Good (ns, f')) ->
+    exists ns', ns = ms ++ ns' /\ run_f k ctag f = Some (Good (ns', f')).
+  Proof.
+    induction ms as [|m ms IH]; intros k ctag f ns f' H; cbn [append_all] in H.
+    - exists ns. auto.
+    - apply run_f_Append_inv in H. destruct H as [ns1 [-> H]]. apply IH in H.
+      destruct H as [ns2 [-> H]]. exists ns2. auto.
+  Qed.
+
+  (* ---- dynamic syntax: the nodes of the run, renumbered, at the position of the token ---- *)
+  Lemma post_dyn_splice t key img ctag f ns f' :
+    dyn_key C OR t = DKey key -> sktok t = dyn_skel D B C OR t img ->
+    run_f (dyn_splice B OR key) ctag f = Some (Good (ns, f')) -> post t f ns f'.
+  Proof.
+    intros Hk Hsk H. unfold dyn_splice in H.
+    destruct (o_dyn OR (dyn_full_key B key)) as [[ns0 ws]|] eqn:Eo; [|apply run_f_Fail_inv in H; contradiction].
+    destruct (forallb dyn_node_ok ns0) eqn:Eok; [|apply run_f_Fail_inv in H; contradiction].
+    apply run_f_FOp_inv in H. destruct H as [u [f1 [El H]]]. apply keeps_log_warnings in El.
+    apply run_f_FOp_inv in H. destruct H as [ns1 [f2 [Er H]]].
+    apply run_append_all in H. destruct H as [ns' [-> H]]. apply run_f_Done_inv in H. destruct H as [-> ->].
+    rewrite app_nil_r.
+    unfold relabel_all in Er. destruct (relabel_list ns0 (nxt f1)) as [l' c'] eqn:E.
+    inversion Er; subst ns1 f2.
+    pose proof (relabel_list_dyn_ok _ _ _ _ E Eok) as Hok'. apply dyn_oks_facts in Hok'.
+    destruct Hok' as [A1 [A2 A3]].
+    apply relabel_list_spec in E. destruct E as [S Ee].
+    split.
+    - constructor; auto. replace (nxt (set_nxt f1 c')) with c' by reflexivity. rewrite <- El. exact S.
+    - rewrite Hsk. unfold dyn_skel. rewrite Hk, Eo. intros _ _. apply skel_nodes_same_shape. exact Ee.
+  Qed.
+
   Lemma post_fence t ctag f ns f' :
     static_tok t = true -> kind_of (ty t) = KFence ->
     run_f (render_fence B C OR t (map bld (children t))) ctag f = Some (Good (ns, f')) -> post t f ns f'.
   Proof.
     intros Hst K H. unfold render_fence in H.
     destruct (negb (code_attrs_static t)); [apply run_f_Fail_inv in H; contradiction|].
-    destruct (_ && _); [apply run_f_Fail_inv in H; contradiction|].
-    assert (Hsk : sktok t = [SCode (lang_carried B OR t (Some (fence_name B C OR t))) (strip1nl (content t))])
+    assert (Hsk0 : forall img, sktok t = dyn_skel D B C OR t img -> True) by auto.
+    assert (Hsk1 : sktok t = dyn_skel D B C OR t
+                     [SCode (lang_carried B OR t (Some (fence_name B C OR t))) (strip1nl (content t))])
       by (tk t; rewrite K; reflexivity).
-    eapply post_code_common; eauto.
+    pose proof Hsk1 as Hsk2. unfold dyn_skel in Hsk1.
+    assert (Hdk : dyn_key C OR t =
+                  match c_mode C with
+                  | Myst => if str_eqb (info_name OR t) v_eval_rst then DUnsupported
+                            else if braced (info_name OR t)
+                                 then DKey [v_directive; strip_braces (info_name OR t); info_arguments OR t; content t]
+                                 else DStatic
+                  | _ => DStatic
+                  end) by (unfold dyn_key; rewrite K; reflexivity).
+    change (match o_split OR (o_strip OR (info t)) with w :: _ => w | [] => [] end) with (info_name OR t) in H.
+    change (directive_arguments OR (info t)) with (info_arguments OR t) in H.
+    destruct (c_mode C) eqn:Em; cbn [andb] in H.
+    - rewrite Hdk in Hsk1. eapply post_code_common; eauto.
+    - rewrite Hdk in Hsk1. eapply post_code_common; eauto.
+    - destruct (str_eqb (info_name OR t) v_eval_rst); [apply run_f_Fail_inv in H; contradiction|].
+      unfold braced in Hdk.
+      destruct (starts_brace (info_name OR t) && ends_brace (info_name OR t)) eqn:Eb.
+      + eapply post_dyn_splice; [exact Hdk | exact Hsk2 | ].
+        exact H.
+      + rewrite Hdk in Hsk1.
+        assert (H' : run_f
+                  (create_highlighted_code_block B C OR (content t)
+                     (Some (if is_empty (info_name OR t) && is_sphinx B then c_highlight_language C
+                            else info_name OR t))
+                     (fun n =>
+                      ' (a, msgs) <- copy_attributes C OR t (oid_of n) n_literal_block keys_ci [] (attrs_of n);
+                      Append (Elem (oid_of n) n_literal_block a (kids_of n ++ msgs)) Done)) ctag f =
+                  Some (Good (ns, f'))).
+        { exact H. }
+        eapply post_code_common; eauto.
   Qed.
 
   (* ---- links ---- *)
@@ -967,10 +1039,14 @@ Section Main.
       apply run_f_FOp_inv in H. destruct H as [o [f1 [Ea H]]].
       destruct (o_path2doc OR pd) as [[docname|]|] eqn:Epd.
       + destruct (wrap_struct t K Hall Hst Hauto o n_pending_xref _ _ _ _ _ _ _ _ Ea ltac:(plain) H) as [Hno _].
-        split; [exact Hno|]. intros [_ [_ HF]]. rewrite HF in Epd. discriminate Epd.
+        split; [exact Hno|]. intros [_ [_ HF]]. destruct (HF pd) as [HF1 _]. rewrite HF1 in Epd. discriminate Epd.
       + destruct (wrap_struct t K Hall Hst Hauto o n_download_reference _ _ _ _ _ _ _ _ Ea ltac:(plain) H) as [Hno _].
-        split; [exact Hno|]. intros [_ [_ HF]]. rewrite HF in Epd. discriminate Epd.
-      + destruct (wrap_struct t K Hall Hst Hauto o n_pending_xref _ _ _ _ _ _ _ _ Ea ltac:(plain) H) as [Hno Hsk].
+        split; [exact Hno|]. intros [_ [_ HF]]. destruct (HF pd) as [HF1 _]. rewrite HF1 in Epd. discriminate Epd.
+      + destruct (match pid with Some _ => o_docjoin OR pd | None => None end) as [docname|] eqn:Edj.
+        { destruct (wrap_struct t K Hall Hst Hauto o n_pending_xref _ _ _ _ _ _ _ _ Ea ltac:(plain) H) as [Hno _].
+          split; [exact Hno|]. intros [_ [_ HF]]. destruct (HF pd) as [_ HF2].
+          destruct pid; [rewrite HF2 in Edj|]; discriminate Edj. }
+        destruct (wrap_struct t K Hall Hst Hauto o n_pending_xref _ _ _ _ _ _ _ _ Ea ltac:(plain) H) as [Hno Hsk].
         split; [exact Hno|]. rewrite (sktok_link t K). apply Hsk; [reflexivity|].
         intros a Ha [_ [HC _]]. unfold link_dest_of.
         rewrite (Ha a_refuri) by (try (intros [X|[X|[X|[]]]]; discriminate X); discriminate).
@@ -1521,16 +1597,6 @@ Section Main.
         * rewrite Hsk. apply skel_box; auto. destruct Et; auto.
   Qed.
 
-  Lemma run_append_all ms : forall k ctag f ns f',
-    run_f (append_all ms k) ctag f = Some (Good (ns, f')) ->
-    exists ns', ns = ms ++ ns' /\ run_f k ctag f = Some (Good (ns', f')).
-  Proof.
-    induction ms as [|m ms IH]; intros k ctag f ns f' H; cbn [append_all] in H.
-    - exists ns. auto.
-    - apply run_f_Append_inv in H. destruct H as [ns1 [-> H]]. apply IH in H.
-      destruct H as [ns2 [-> H]]. exists ns2. auto.
-  Qed.
-
   Lemma post_myst_target t ctag f ns f' :
     kind_of (ty t) = KMystTarget ->
     run_f (render_myst_target C OR t (map bld (children t))) ctag f = Some (Good (ns, f')) -> post t f ns f'.
@@ -2010,5 +2076,30 @@ Section Main.
       eapply (post_box_container t k_inline [] keys_ci CSpan); eauto; try plain; try reflexivity.
       + unfold t. cbn [ty]. rewrite K. exact I.
       + unfold t. cbn [skel_tok ty children]. rewrite K. reflexivity.
+    - (* colon_fence *) unfold render_colon_fence in H.
+      change (match o_split OR (o_strip OR (info t)) with w :: _ => w | [] => [] end) with (info_name OR t) in H.
+      change (directive_arguments OR (info t)) with (info_arguments OR t) in H.
+      destruct (starts_brace (info_name OR t) && ends_brace (info_name OR t)) eqn:Eb;
+        [|apply run_f_Fail_inv in H; contradiction].
+      eapply (post_dyn_splice t _ [SUnknown ty0]); [| |exact H].
+      + unfold dyn_key. change (ty t) with ty0. rewrite K. unfold braced. rewrite Eb. reflexivity.
+      + unfold t. cbn [skel_tok ty]. rewrite K. reflexivity.
+    - (* myst_role *) unfold render_myst_role in H.
+      destruct (assoc a_name (meta t)) as [name|] eqn:En; [|apply run_f_Fail_inv in H; contradiction].
+      eapply (post_dyn_splice t _ [SUnknown ty0]); [| |exact H].
+      + unfold dyn_key. change (ty t) with ty0. rewrite K, En. reflexivity.
+      + unfold t. cbn [skel_tok ty]. rewrite K. reflexivity.
+    - (* substitution_inline *)
+      eapply (post_dyn_splice t _ [SUnknown ty0]); [| |exact H].
+      + unfold dyn_key. change (ty t) with ty0. rewrite K. reflexivity.
+      + unfold t. cbn [skel_tok ty]. rewrite K. reflexivity.
+    - (* substitution_block *)
+      eapply (post_dyn_splice t _ [SUnknown ty0]); [| |exact H].
+      + unfold dyn_key. change (ty t) with ty0. rewrite K. reflexivity.
+      + unfold t. cbn [skel_tok ty]. rewrite K. reflexivity.
+    - (* front_matter *)
+      eapply (post_dyn_splice t _ [SUnknown ty0]); [| |exact H].
+      + unfold dyn_key. change (ty t) with ty0. rewrite K. reflexivity.
+      + unfold t. cbn [skel_tok ty]. rewrite K. reflexivity.
   Qed.
 End Main.
